@@ -127,16 +127,24 @@ def gen_bare(rng):
 
 # ------------------------------------------------------------------ canonical values
 def canon_py(v):
-    """type-exact canonical JSON of a Python value (floats as exact rationals)"""
+    """type-exact canonical JSON of a Python value (floats as exact rationals).  numpy scalars and arrays are NOT
+    identified with Python numbers / lists: they are canonicalised as (type name, dtype, shape, exact values) —
+    `np.array_equal(60.0, np.array([60.]))` is True, a read-back check must not be."""
     import numpy as np
 
     if v is None:
         return None
-    if isinstance(v, (bool, np.bool_)):
+    if isinstance(v, np.ndarray):
+        flat = [x.hex() if isinstance(x, float) else repr(x) for x in v.ravel().tolist()]
+        return {"s": "<ndarray dtype=%s shape=%s values=%s>" % (v.dtype, list(v.shape), json.dumps(flat))}
+    if isinstance(v, np.generic):
+        x = v.item()
+        return {"s": "<numpy.%s %s>" % (type(v).__name__, x.hex() if isinstance(x, float) else repr(x))}
+    if isinstance(v, bool):
         return bool(v)
-    if isinstance(v, (int, np.integer)):
+    if isinstance(v, int):
         return {"i": str(int(v))}
-    if isinstance(v, (float, np.floating)):
+    if isinstance(v, float):
         f = float(v)
         if f != f or f in (float("inf"), float("-inf")):
             return {"s": "<nonfinite %r>" % f}
@@ -148,8 +156,6 @@ def canon_py(v):
         return {"l": [canon_py(x) for x in v]}
     if isinstance(v, tuple):
         return {"t": [canon_py(x) for x in v]}
-    if isinstance(v, np.ndarray):
-        return {"s": "<ndarray %s %s>" % (v.dtype, json.dumps(v.tolist()))}
     return {"s": "<object %s>" % type(v).__name__}
 
 
@@ -349,6 +355,12 @@ def tag(v):
         return ["list", [tag(x) for x in v]]
     if isinstance(v, tuple):
         return ["tuple", [tag(x) for x in v]]
+    import numpy as np
+
+    if isinstance(v, np.ndarray):
+        return ["nd", str(v.dtype), list(v.shape), [tag(x) for x in v.ravel().tolist()]]
+    if isinstance(v, np.floating):
+        return ["npfloat", float(v).hex()]
     raise TypeError(v)
 
 
@@ -372,12 +384,18 @@ def untag(t):
         return [untag(x) for x in t[1]]
     if k == "tuple":
         return tuple(untag(x) for x in t[1])
+    if k == "nd":
+        return np.array([untag(x) for x in t[3]], dtype=t[1]).reshape(t[2])
     raise TypeError(t)
 
 
 def as_input(rng, v):
     """how the value reaches Processor.set: as text (converted by eval_entry), as a sequence of texts, or natively.
     returns (input description, the Python value that must be read back)"""
+    import numpy as np
+
+    if isinstance(v, np.ndarray):
+        return {"value": canon_py(v), "native": tag(v)}, v       # an array is kept as it is (type, dtype, shape)
     if isinstance(v, (list, tuple)):
         mode = rng.choice(["text", "native", "items"])
         if mode == "text":
@@ -394,7 +412,7 @@ def as_input(rng, v):
         lit = py_to_lit(v)
         return {"text": render(lit)}, denote(lit)
     if isinstance(v, float) and rng.random() < 0.3:
-        return {"value": canon_py(v), "native": ["npfloat", v.hex()]}, v
+        return {"value": canon_py(np.float64(v)), "native": ["npfloat", v.hex()]}, np.float64(v)
     if v is None:
         lit = py_to_lit(v)
         return {"text": render(lit)}, None          # a native None is a TypeError in Processor.set: use the text
@@ -436,6 +454,15 @@ def native_of(inp):
     if "native" not in inp:
         return [i["text"] for i in inp["items"]]
     return untag(inp["native"])
+
+
+def array_values():
+    """numpy arrays of sizes 0 / 1 / 2 / many, shapes (0,), (1,), (1, 1), (2,), 0-d, (2, 3), float and int dtypes"""
+    import numpy as np
+
+    return [np.array([]), np.array([60.0]), np.array([[60.0]]), np.array([1.0, 2.5]), np.array(5.0), np.array(7),
+            np.arange(6.0).reshape(2, 3), np.array([3]), np.array([[1, 2]]), np.array([0.0]), np.array([[[2.5]]]),
+            np.array([1.5, 2.5, 3.5, 4.5, 5.5])]
 
 
 # ------------------------------------------------------------------ key cases
@@ -482,10 +509,17 @@ def gen_key_case(rng, world, det_probe_proc):
     is_det = base[0] == "detector"
     if is_det:
         v = valid_value(rng, base[2])
+        if base[2] == "quantum_efficiency" and rng.random() < 0.4:
+            import numpy as np
+
+            v = rng.choice([np.array([0.5]), np.array([[0.25]]), np.array([0.2, 0.7]), np.array(0.5), np.array([0.0, 0.5, 1.0])])
     elif base[-1] == "enabled":
         v = rng.choice([True, False])
     else:
-        v = rng.choice([3, -1, 0.75, 1e-3, "abc", "image.fits", True, [1, 2.5], (0.0, 5.0), [[1, 2], [3]], 12345678901234567890])
+        v = rng.choice([3, -1, 0.75, 1e-3, "abc", "image.fits", True, [1, 2.5], (0.0, 5.0), [[1, 2], [3]], 12345678901234567890,
+                        [7], (7,), [0.5], ("a",)])
+        if rng.random() < 0.35:
+            v = rng.choice(array_values())
     inp, expected = as_input(rng, v)
     if cls == "valid":
         return base, cls, expected, inp
@@ -631,9 +665,14 @@ def run_key_impl(case):
         from pyxel.calibration.fitting_datatree import ModelFittingDataTree
         from pyxel.observation import ParameterValues
 
-        var = ParameterValues(key=dotted, values="_", boundaries=(0.0, 1.0e9))
+        if "cal_n" in inp:     # a vector variable: update_processor assigns the slice parameter[start:stop]
+            var = ParameterValues(key=dotted, values=["_"] * inp["cal_n"], boundaries=(0.0, 1.0e9))
+            vec = np.asarray(value, dtype=float)
+        else:
+            var = ParameterValues(key=dotted, values="_", boundaries=(0.0, 1.0e9))
+            vec = np.array([float(value)])
         stub = types.SimpleNamespace(_variables=[var])
-        r = attempt(ModelFittingDataTree.update_processor, stub, np.array([float(value)]), proc)
+        r = attempt(ModelFittingDataTree.update_processor, stub, vec, proc)
         if "ok" in r:
             target = r["ok"]
     out["set"] = {"ok": True} if "ok" in r else r
@@ -836,12 +875,20 @@ def body(ck: common.Check):
             continue
         entry = rng.choice(ENTRIES)
         if entry == "calibration":
-            # the optimiser assigns floats: only meaningful for numeric settings
-            if cls == "valid" and not (key[0] == "detector" and key[2] not in ("adc_voltage_range", "row", "col", "adc_bit_resolution")):
+            import numpy as np
+
+            # the optimiser assigns entries (values: '_') or chunks (values: ['_', …]) of its float decision vector
+            numeric_det = key[0] == "detector" and key[-1] not in ("adc_voltage_range", "row", "col", "adc_bit_resolution")
+            is_arg = len(key) == 5 and key[0] == "pipeline" and key[3] == "arguments"
+            if is_arg or (cls != "valid" and rng.random() < 0.5):
+                n = rng.choice([1, 1, 2, 3, 5])
+                arr = np.array([rng.choice([60.0, 0.5, 12.5, 1e-3]) for _ in range(n)])
+                inp, expected = {"value": canon_py(arr), "native": tag(arr), "cal_n": n}, arr
+            elif cls == "valid" and not numeric_det:
                 entry = "set"
             else:
                 v = 0.5 if key[-1] == "quantum_efficiency" else 12.5
-                inp, expected = {"value": canon_py(v), "native": tag(v)}, v
+                inp, expected = {"value": canon_py(np.float64(v)), "native": ["npfloat", v.hex()]}, np.float64(v)
         probes_ = all_setting_keys(world, proc.detector)
         if key not in probes_:
             probes_ = probes_ + [key]
@@ -865,7 +912,7 @@ def body(ck: common.Check):
     reqs = [{"op": "eval", "text": c["text"]} for c in eval_cases]
     for c, im in zip(key_cases, key_impl):
         r = {"op": "key", "det": im["det_tree"], "cfg": cfg_json(c["world"]), "key": c["key"], "probes": c["probes"]}
-        r.update({k: v for k, v in c["input"].items() if k != "native"})
+        r.update({k: v for k, v in c["input"].items() if k not in ("native", "cal_n")})
         reqs.append(r)
     for c, im in zip(val_cases, val_impl):
         reqs.append({"op": "validate", "det": im["det_tree"], "cfg": cfg_json(c["world"]), "key": c["key"],
